@@ -464,6 +464,13 @@ func (w *cacheWorld) doDial(ts *ctask, i int, host string) {
 }
 
 func bodyDNSCache(r *sim.Run) {
+	if !fclient.VerifInternals {
+		// the accessors this workload lives on (resolver seam, lookup, entries)
+		// do not fit the tree under test: nothing here can be judged
+		r.Probe("degraded_dnscache_workload_skipped")
+		r.Logf("DNS-cache workload skipped: in-package accessors unavailable on this tree")
+		return
+	}
 	t := r.T
 	s := sim.NewSched(r)
 	w := &cacheWorld{r: r, s: s, tasks: map[string]*ctask{}, owner: map[string]answerInfo{}, inResolver: map[string]int{}, native: sim.NativeMode}
